@@ -326,11 +326,13 @@ func newWorld(c wcfg) *world {
 		panic(fmt.Sprintf("harness: session constructor: %v", err))
 	}
 	w.s.OnError(func(e error) { w.errs = append(w.errs, e.Error()) })
-	w.s.OnChangeState(utils.EventLogon, func() bool { w.logonEv++; return true })
-	w.s.OnChangeState(utils.EventLogout, func() bool { w.logoutEv++; return true })
-	w.s.OnChangeState(utils.EventDisconnect, func() bool { w.discEv++; return true })
-	w.h.OnStopped(func() bool { w.stopped++; return true })
-	w.h.OnDisconnect(func() bool { w.hdisc++; return true })
+	// the application's callbacks look at the session, as an application's do (a callback that is run while the
+	// library holds the lock it needs never comes back)
+	w.s.OnChangeState(utils.EventLogon, func() bool { w.logonEv++; _ = w.s.IsLogged(); return true })
+	w.s.OnChangeState(utils.EventLogout, func() bool { w.logoutEv++; _ = w.s.IsLogged(); return true })
+	w.s.OnChangeState(utils.EventDisconnect, func() bool { w.discEv++; _ = w.s.IsLogged(); return true })
+	w.h.OnStopped(func() bool { w.stopped++; _ = w.s.IsLogged(); return true })
+	w.h.OnDisconnect(func() bool { w.hdisc++; _ = w.s.IsLogged(); return true })
 	// consumer of the outbound channel (stands for the connection's writer loop)
 	w.release = make(chan struct{}, 1)
 	go func() {
